@@ -71,7 +71,7 @@ import re
 from typing import Any
 
 RE_CLASS = re.compile(r'(?i)[a-z_][_a-z\d\.]+\(')
-RE_PARAM = re.compile(r'(?i)[_a-z][_a-z\d]+=')
+RE_PARAM = re.compile(r'(?i)[_a-z][_a-z\d]*=')
 RE_EMPTY = re.compile(r'\(\)|\[\]|\{\}')
 RE_LSTRT = re.compile(r'\[')
 RE_DSTRT = re.compile(r'\{')
@@ -79,8 +79,8 @@ RE_TSTRT = re.compile(r'\(')
 RE_LEND = re.compile(r'\]')
 RE_DEND = re.compile(r'\}')
 RE_TEND = re.compile(r'\)')
-RE_INT = re.compile(r'\d+')
-RE_KWORD = re.compile(r'(?i)[_a-z][_a-z\d]+')
+RE_INT = re.compile(r'-?\d+')
+RE_KWORD = re.compile(r'(?i)[_a-z][_a-z\d.|]*')
 RE_DQSTR = re.compile(r'"(?:\\.|[^"\\])*"')
 RE_SQSTR = re.compile(r"'(?:\\.|[^'\\])*'")
 RE_SEP = re.compile(r'\s*(,)\s*')
@@ -135,5 +135,10 @@ def pretty(obj: Any) -> str:  # pragma: no cover
                 elif name in ('dsep',):
                     output.append(f'{m.group(1)} ')
                 break
+
+        if m is None:
+            # No token matches here: copy the character so the loop always advances
+            output.append(sel[index])
+            index += 1
 
     return ''.join(output)
